@@ -194,8 +194,24 @@ impl Harness for C16Norm {
                 let spec = l21_spec(&|i, j| d.inverse[(i, j)], &m, n);
                 // the comparison with the tolerance: the atom one side of which is the tolerance variable
                 let code = T::atom_sides().into_iter().find_map(|(l, r)| if r.sym_id() == tol_t.sym_id() { Some(l) } else if l.sym_id() == tol_t.sym_id() { Some(r) } else { None });
+                // in exact arithmetic the residual inverse*M - 1 vanishes for every SPD input, so any norm of it is 0:
+                // the entries of the residual are abstracted to free variables, and what is decided is whether the
+                // tested quantity is the L_2,1 norm *as a function of the residual*
+                let one = T::rat(1, 1);
+                for i in 0..n {
+                    for j in 0..n {
+                        let mut e = zero;
+                        for k in 0..n {
+                            e = e + d.inverse[(i, k)] * m[k][j];
+                        }
+                        if i == j {
+                            e = e - one;
+                        }
+                        out.cut_local(e, format!("Z{}_{}", i, j));
+                    }
+                }
                 match code {
-                    Some(c) => out.prove("the stability test compares |inverse*M - 1|_{2,1} with the tolerance", c, Rel::Eq, spec),
+                    Some(c) => out.prove_cuts("the stability test compares |inverse*M - 1|_{2,1} with the tolerance", c, Rel::Eq, spec, &["Z"]),
                     None => out.structural.push("with Some(tol) no comparison with the tolerance is made on an Ok path".into()),
                 }
             }
